@@ -45,6 +45,7 @@ namespace bxdecay0 {
 
   void Pd104low(i_random & prng_, event & event_, const int levelkev_)
   {
+    BXDECAY0_VERIF_SCOPE("scheme:Pd104low", levelkev_);
     // double t;
     double tdlev;
     double tclev;
